@@ -1,4 +1,5 @@
 import LiquidVerif.Lemmas.ExcFlow
+import LiquidVerif.Model.C02Known
 /-!
 The finite tables of C02, decided by the kernel over the generated handler tables and the primitive table:
 one obligation per (filter, left class, step, argument class).  `knownLeak` lists the cells where the current code
@@ -13,41 +14,6 @@ theorem optCls_mem_all (a : Option Cls) : a ∈ optClsAll := by
   cases a with
   | none => exact List.mem_cons_self
   | some c => exact List.mem_cons_of_mem _ (List.mem_map.mpr ⟨c, Cls.mem_all c, rfl⟩)
-
-/-- `knownLeak f l pos a`: the cell (filter `f`, left class `l`, argument position `pos` (0 = no argument involved),
-argument class `a`) is a known leak of the current tree.  The first line is the int→str digit limit: any cell with an
-`int_giant` operand. -/
-def knownLeak (f : FilterName) (l : Cls) (pos : Nat) (a : Option Cls) : Bool :=
-  l == int_giant || a == some int_giant ||
-  match f, pos with
-  -- to_int(inf) in truncate / truncatewords (OverflowError)
-  | .truncate_, 1 | .truncatewords_, 1 => a == some float_inf || a == some float_ninf
-  -- compact with a key: item[key] may raise KeyError / IndexError
-  | .compact_, 1 => a.isSome && a != some none_
-  -- date: fromtimestamp of an out-of-calendar number (ValueError / OSError), int() of a 4300+ digit string
-  | .date_, 1 => l == int_ts || l == str_ts || l == str_bigdigits || l == str_hugeint
-  -- json: `" " * indent` (MemoryError / OverflowError)
-  | .json_, 1 => a == some int_ts || a == some str_ts || a == some int_large || a == some str_bigdigits
-                  || a == some int_big || a == some int_huge
-  -- index on an undefined left value (AttributeError)
-  | .index_, 1 => l == undefined
-  -- sum of +inf and -inf (decimal.InvalidOperation)
-  | .sum_, 1 => l == list_infs
-  -- str.encode of a lone surrogate (UnicodeEncodeError)
-  | .url_encode_, 0 | .base64_encode_, 0 | .base64_url_safe_encode_, 0 => l == str_surrogate
-  -- babel
-  | .currency_, 0 | .money_, 0 | .money_with_currency_, 0 | .money_without_currency_, 0
-  | .money_without_trailing_zeros_, 0 | .decimal_, 0 => l == int_big || l == int_huge || l == str_hugeint || l == str_exp
-  | .datetime_, 0 => l == int_ts || l == int_large || l == int_big || l == int_huge || l == float_inf || l == float_ninf
-                     || l == float_nan || l == str_ts || l == str_bigdigits || l == str_hugeint || l == str_exp
-                     || l == str_nan || l == str_inf
-  | .unit_, 1 => (match a with | some u => u.isStr | none => false) &&
-                 (l == int_big || l == int_huge || l == str_hugeint || l == str_exp || l == float_inf || l == float_ninf || l == str_inf
-                  || l == float_nan || l == str_nan)
-  | _, _ => false
-
-
-
 
 def postOk (f : FilterName) (r : Except Exc Unit) : Bool := allContained (post f r)
 
